@@ -12,11 +12,16 @@ mod ivl;
 mod prog;
 mod rdfa;
 mod runner;
+mod smtref;
 mod tape;
 
+mod p_c06;
+mod p_c08;
+mod p_c09;
 mod p_c11;
 mod p_c12;
 mod p_c15;
+mod p_c17;
 mod p_c20;
 
 use runner::{Cx, EnumSink, Known, PropFn, PtArgs, Stats};
@@ -30,6 +35,10 @@ pub struct Prop {
 
 fn registry() -> Vec<Prop> {
     vec![
+        Prop { id: "C06", run: p_c06::run, tape_len: 64, enumerate: Some(p_c06::enumerate) },
+        Prop { id: "C08", run: p_c08::run, tape_len: 96, enumerate: Some(p_c08::enumerate) },
+        Prop { id: "C09", run: p_c09::run, tape_len: 96, enumerate: Some(p_c09::enumerate) },
+        Prop { id: "C17", run: p_c17::run, tape_len: 128, enumerate: None },
         Prop { id: "C11", run: p_c11::run, tape_len: 96, enumerate: Some(|th, part, parts, sink| p_c11::enumerate(if th { 5 } else { 4 }, part, parts, sink)) },
         Prop { id: "C12", run: p_c12::run, tape_len: 128, enumerate: Some(|th, part, parts, sink| if th { p_c12::enumerate(4, 2, part, parts, sink) } else { p_c12::enumerate(3, 2, part, parts, sink) }) },
         Prop { id: "C15", run: p_c15::run, tape_len: 64, enumerate: Some(|th, part, parts, sink| p_c15::enumerate(if th { 40 } else { 24 }, part, parts, sink)) },
